@@ -349,7 +349,10 @@ var knownPure = map[string]bool{
 	"(invopop/validation.Errors).Error": true,
 	"github.com/invopop/validation.NewError": true,
 	"(error).Error": true,
-	"time.Now": true,
+	"time.Now": true, "context.Background": true, "context.WithValue": true, "context.TODO": true,
+	"errors.Is": true, "errors.As": true, "errors.Unwrap": true,
+	"github.com/invopop/gobl/uuid.V7": true, "github.com/invopop/gobl/uuid.V1": true, "github.com/invopop/gobl/uuid.V4": true,
+	"(context.Context).Value": true,
 	"unicode/utf8.DecodeRuneInString": true, "unicode/utf8.RuneCountInString": true, "unicode/utf8.ValidString": true,
 	"sort.SearchStrings": true,
 	"slices.Contains[[]string string]": true,
